@@ -535,3 +535,85 @@ Section Framing.
     apply not_genuine_false in G. rewrite G. reflexivity.
   Qed.
 End Framing.
+
+(* ------------------------------------------------------------------ *)
+(* udp_with_fallback                                                    *)
+
+Section Fallback.
+  Variable parse : list Z -> pabs.
+
+  (* whichever transport answered, the message returned answers the query; one that came over
+     UDP came from the queried address and does not have the TC bit; TCP is used only after the
+     UDP exchange ended in Truncated *)
+  Theorem udp_with_fallback_returns_genuine q qwire where_ timeout af o evs wevs stream revs now used m wire t :
+    udp_with_fallback parse q qwire where_ timeout af o evs wevs stream revs now = Ok (used, (m, wire, t)) ->
+    genuine q m /\
+    (used = false ->
+       has_tc m = false /\
+       exists pre from rest, evs = pre ++ UData wire from :: rest /\ src_ok af from (Some where_)) /\
+    (used = true ->
+       exists i, udp parse q qwire where_ timeout af (with_rot o) [] evs now = (i, Lib neTruncated)).
+  Proof.
+    unfold udp_with_fallback.
+    destruct (udp parse q qwire where_ timeout af (with_rot o) [] evs now) as [i [x|e|e]] eqn:U.
+    - destruct x as [[[[r w] t0] from] rest]. intros H. inversion H; subst.
+      apply udp_returns_genuine in U. destruct U as (Hg & Hs & Hp & pre & Hev & _).
+      split; auto. split; [|discriminate].
+      intros _. split.
+      + apply from_wire_ok_wellformed in Hp. destruct Hp as (_ & _ & _ & _ & Htc). apply Htc. reflexivity.
+      + exists pre, from, rest. auto.
+    - destruct (e =? neTruncated) eqn:E; [|discriminate].
+      apply Z.eqb_eq in E. subst e.
+      destruct (tcp parse q qwire timeout (o_ignore_trailing o) wevs stream revs
+                    (now + blocks_time (firstn i evs))) as [[[[[m1 w1] t1] s1] sk1]| |] eqn:T;
+        cbn [bind]; try discriminate.
+      intros H. inversion H; subst.
+      apply tcp_returns_genuine in T. destruct T as (Hg & _).
+      split; auto. split; [discriminate|]. intros _. exists i. reflexivity.
+    - discriminate.
+  Qed.
+
+  (* a genuine truncated UDP reply (behind any ignorable prefix) makes the call go to TCP: the
+     result is the TCP exchange's *)
+  Theorem fallback_on_truncation q qwire where_ timeout af o pre wire from rest wevs stream revs now now' :
+    let exp := snd (compute_times now timeout) in
+    passes parse af (Some where_) exp (with_rot o) (Some q) pre now now' ->
+    src_defined af (Some where_) -> src_ok af from (Some where_) ->
+    p_short (parse wire) = false -> has_tc (p_msg (parse wire)) = true ->
+    (forall e, p_err (parse wire) = Some e -> is_formerr e = true) ->
+    genuine q (p_msg (parse wire)) ->
+    udp_with_fallback parse q qwire where_ timeout af o (pre ++ UData wire from :: rest) wevs stream revs now
+    = match tcp parse q qwire timeout (o_ignore_trailing o) wevs stream revs
+                (now + blocks_time (firstn (length pre + 1) (pre ++ UData wire from :: rest))) with
+      | Ok (m, w, t, _, _) => Ok (true, (m, w, t))
+      | Lib e => Lib e
+      | Internal e => Internal e
+      end.
+  Proof.
+    intros exp Hp Hd Hs Hsh Htc He Hg. unfold udp_with_fallback.
+    rewrite (NetUdp.truncation_reported parse q qwire where_ timeout af (with_rot o) pre wire from rest
+               now now' Hp Hd Hs eq_refl Hsh Htc He Hg).
+    cbn [Z.eqb neTruncated Pos.eqb].
+    destruct (tcp parse q qwire timeout (o_ignore_trailing o) wevs stream revs
+                (now + blocks_time (firstn (length pre + 1) (pre ++ UData wire from :: rest))))
+      as [[[[[m1 w1] t1] s1] sk1]| |]; reflexivity.
+  Qed.
+End Fallback.
+
+(* completeness of tcp(): without a deadline, under write and read scripts that only fragment and
+   delay, a well-formed genuine reply is returned, and what follows it stays on the connection *)
+Theorem tcp_genuine_returned (parse : list Z -> pabs) q qwire it wevs what more revs now m :
+  zlen qwire <= 65535 -> zlen what <= 65535 -> Forall benign_w wevs -> Forall benign_r revs ->
+  from_wire_out (parse what) it false = POk m -> genuine q m ->
+  exists t sk, tcp parse q qwire None it wevs (frame what ++ more) revs now
+               = Ok (m, what, t, frame qwire, sk) /\ rs_stream sk = more.
+Proof.
+  intros Hq Hw Bw Br Hp Hg. unfold tcp. cbn [compute_times].
+  unfold send_tcp. destruct (zlen qwire >? 65535) eqn:G; [lia|].
+  destruct (send_all_complete wevs (u16be (zlen qwire) ++ qwire) [] now Bw) as (evs' & now' & Hs).
+  rewrite Hs. cbn [bind app].
+  destruct (tcp_frame_roundtrip_complete parse what more it revs now' Hw Br) as (sk' & Hst & _ & Hr).
+  rewrite Hr, Hp. cbn [bind].
+  apply is_response_iff in Hg. rewrite Hg. cbn [negb].
+  exists (rs_now sk' - now), sk'. split; auto.
+Qed.
